@@ -145,6 +145,8 @@ class _Counters:
                     after = self._before(b.record_loop, use) and not self._within(use, b.record_loop)
                     v = v + (K_ if level == "fn" else 0) + (CNT_ if after else 0)
             elif parent_of(inc) is b.group_loop:
+                if b.org_list and amt == sp.Function("len")(T.sym(b.org_list)):
+                    amt = CNT_          # the list of the group's records has `count` entries
                 if amt != CNT_ or level != "fn":
                     raise AnalysisError(f"{self.q}: counter `{name}` advances by {amt} per group")
                 v = v + K_ + (CNT_ if self._before(inc, use) else 0)
@@ -166,6 +168,18 @@ class _Counters:
             env[b.org_idx] = O_
             if b.k_var:
                 env[b.k_var] = k_
+            # row indices named by a temporary of the body (ver_idx = count + hor_idx)
+            for st in b.record_loop.body:
+                if st is use or not self._before(st, use):
+                    break
+                if isinstance(st, ast.Assign) and len(st.targets) == 1 and isinstance(st.targets[0], ast.Name) and st.targets[0].id not in env \
+                        and st.targets[0].id not in self.c:
+                    names = {n.id for n in ast.walk(st.value) if isinstance(n, ast.Name)}
+                    if names and names <= set(env) and not any(isinstance(n, (ast.Call, ast.Attribute, ast.Subscript)) for n in ast.walk(st.value)):
+                        try:
+                            env[st.targets[0].id] = sp.expand(Translator(env=dict(env)).tr(st.value))
+                        except AnalysisError:
+                            pass
         return env
 
 
